@@ -31,7 +31,7 @@ func init() {
 		Props:  []string{"C09"},
 		Bubble: true,
 		Pools:  true,
-		Plan:   simple(12000, 200000),
+		Plan:   simple(12000, 1000000),
 		Run:    runBatch,
 		Real:   []string{"BatchDataCodingEncoder.Build (incl. its errgroup workers, run as scheduler tasks)", "EncodeCMPPContentAndSplit / EncodeSMPPContentAndSplit (per-candidate part counts)", "packet.Writer / cmpp.Utf8ToUcs2Pooled (pool hammer task)"},
 		Stub:   []string{"request generator", "seeded cooperative scheduler (testing/synctest bubble)", "map-order chooser behind verifhook.PermuteBatch", "reference repertoire check and reference decoders"},
